@@ -261,6 +261,17 @@ def make_hermitian(A):
     return A
 
 
+@st.composite
+def maybe_high_aspect(draw, m, n, one_in=8, short_max=3):
+    """(m, n) unchanged, or - one case in `one_in` - a shape with aspect ratio >= 4 and 2..short_max lines on the
+    short side (tall-skinny / short-fat): the class where libraries switch to QR-first / Gram / R-only paths."""
+    if draw(st.integers(0, one_in - 1)) != 0:
+        return m, n
+    sh = draw(st.integers(2, short_max))
+    lg = 4 * sh + draw(st.integers(0, 4))
+    return (lg, sh) if draw(st.booleans()) else (sh, lg)
+
+
 def seeds():
     return st.integers(0, 2 ** 32 - 1)
 
